@@ -166,7 +166,7 @@ fn event_iterator_next<'a>(slf: &mut EventIterator<'a>) -> (r: Option<(Readiness
                 assert(slf.rest_refs() == rest0.skip(n + 1));
                 n = n + 1;
             }
-//@ before <<return Some((next.readiness, next.token));>>
+//@ before <<return Some(>>
                 assert(first_match(rest0, reg0, n - 1));
                 assert(next.readiness == rest0[n - 1].readiness && next.token == rest0[n - 1].token);
                 assert(slf.rest_refs() == rest0.skip((n - 1) + 1));
